@@ -8,6 +8,8 @@
      B <sre> | s1 | s2 ...      ->  "<has_nongreedy><count_subs>" then for each string
                                     "<matchb><searchb>:<search_span i-j or x>", space separated
      C <sre> | s | spans        ->  check_spans as 0/1
+     G <sre> | s1 | s2 ...      ->  "<has_nongreedy><left_anchored>" then for each string the spans regexp-fold hands to
+                                    kons: "i-j,i-j" or "_" (none), "!" = out of fuel
      F HEX -> fold, W HEX -> is_word *)
 open Model
 open Common
@@ -92,6 +94,20 @@ let handle fields =
                     (match search_span r s with
                      | None -> "x"
                      | Some (i, j) -> string_of_int (int_of_nat i) ^ "-" ^ string_of_int (int_of_nat j))) strs)
+         | [] -> "ERR empty")
+    | "G" :: rest ->
+        (match split_bar [] [] rest with
+         | sre :: strs ->
+             let (r, left) = p_sre sre in
+             if left <> [] then "ERR trailing sre tokens" else
+             String.concat " "
+               ((b2s (has_nongreedy r) ^ b2s (left_anchored r)) ::
+                List.map (fun f ->
+                    match fold_spans r (str_of f) with
+                    | None -> "!"
+                    | Some [] -> "_"
+                    | Some l -> String.concat "," (List.map (fun (i, j) ->
+                          string_of_int (int_of_nat i) ^ "-" ^ string_of_int (int_of_nat j)) l)) strs)
          | [] -> "ERR empty")
     | "C" :: rest ->
         (match split_bar [] [] rest with
